@@ -305,7 +305,7 @@ def _floatkey(ctx, cfg, prog):
                '%s() in an Eq / Hash implementation: the bit pattern tells -0.0 from +0.0 (and NaN payloads apart), so equal '
                'coordinates can get different keys' % last, site='%s:%d' % (file, line))
     ctx.ob('FLOATKEY', 'scan', cfg, True, 'Eq / Hash implementations scanned: %d; bit-pattern extractors found: %d' % (n, len(bad)))
-    ctx.floor('Eq / Hash implementations in the crate', 40, n, cfg)
+    ctx.floor('Eq / Hash implementations in the crate', 25, n, cfg)
     grid = [q for q in prog.bodies if 'spatial_hash_grid::GridKey as std::' in q]
     ctx.floor('GridKey Eq / Hash implementations', 2, len([q for q in grid if prog.bodies[q].kind != 'closure']), cfg)
 
@@ -404,7 +404,7 @@ def _ctoridx(ctx, cfg, prog, mod):
                            'its duplicate index is not reset to None afterwards: an index inherited from the value\'s previous (empty) '
                            'state does not know the vertices of the new Tds, so near-duplicates of them are accepted'),
                        site='%s:%d' % (b.file, s_.line))
-    ctx.floor('DelaunayTriangulation aggregates', 6, n_agg, cfg)
+    ctx.floor('DelaunayTriangulation aggregates', 4, n_agg, cfg)
 
 
 def _seedall(ctx, cfg, prog, mod):
